@@ -351,7 +351,9 @@ def run : Nat → World → List Item → World
     run f { w.set side nn' with log := w.log ++ [(side, r)] }
       (sents.map (Item.tx side) ++ (.rx side us port proto (if copy then p else p') :: rest))
 
-def fuel : Nat := 64
+/-- fuel of the exchanges started by the operations below; enough for every node with at most 61 programs installed
+(`C13_send_terminates`: `2 + K * (K + 3)` steps with `K - 1` programs per node) -/
+def fuel : Nat := 4096
 
 /-- a payload sent by object `u` of node `side` to `(ip, port, proto)`, with everything it triggers -/
 def send (w : World) (side : Side) (u : Nat) (ip port proto : Nat) (p : Payload) : World :=
